@@ -762,6 +762,44 @@ fn w4_div_hostile(ctx: &mut Ctx, kind: &str, ops: &[Op]) {
     }
 }
 
+/// Long operands (dynamic and auto types on the left): word boundaries of 64 up to 4097 bits and odd lengths.
+fn w_long(ctx: &mut Ctx, kind: &str, ops: &[Op], tier: Tier) {
+    let mut rng = Rng::derive(ctx.seed, 0x4097, 0);
+    for ta in [IDX_BVD, IDX_BV] {
+        for tb in [IDX_BVD, IDX_BV, 9usize, 11, 2] {
+            for n in gen::long_lens(tier) {
+                if !ctx.mine() {
+                    continue;
+                }
+                let capb = TYPE_FIXED_CAP[tb].unwrap_or(usize::MAX);
+                let mut ms = vec![n.min(capb), (n - 1).min(capb), 64.min(capb), 129.min(capb), (n + 64).min(capb), (n / 2).min(capb)];
+                ms.sort();
+                ms.dedup();
+                let vals_a = gen::lattice_small(n, 64, &mut rng);
+                for m in ms {
+                    let vals_b = gen::lattice_small(m, 64, &mut rng);
+                    for va in &vals_a {
+                        for vb in &vals_b {
+                            if tier != Tier::Thorough && rng.below(3) != 0 {
+                                continue;
+                            }
+                            let a = Spec::new(ta, va.clone(), via_for(ta, &mut rng));
+                            let b = Spec::new(tb, vb.clone(), via_for(tb, &mut rng));
+                            for op in ops {
+                                if matches!(op, Op::Div | Op::Rem) && model::is_zero(vb) {
+                                    continue;
+                                }
+                                ctx.bucket("long-operands");
+                                emit(ctx, kind, &a, &b, *op, if kind == "forms" { None } else { Some(ALL_FORMS[rng.below(6)]) }, "W-long-operands");
+                            }
+                        }
+                    }
+                }
+            }
+        }
+    }
+}
+
 fn w_not(ctx: &mut Ctx, tier: Tier) {
     let mut rng = Rng::derive(ctx.seed, 0x6666, 0);
     for ta in 0..NTYPES {
@@ -805,6 +843,7 @@ pub fn run(ctx: &mut Ctx) {
             w2_lattice(ctx, "binop", ops, tier, false);
             w3_random(ctx, "binop", ops, tier.pick(300, 150_000, 4_000_000));
             w_uint(ctx, "binop", ops, tier);
+            w_long(ctx, "binop", ops, tier);
             #[cfg(feature = "hooks")]
             crate::props::prim::run_prims(ctx);
         }
@@ -813,6 +852,7 @@ pub fn run(ctx: &mut Ctx) {
             w2_lattice(ctx, "binop", ops, tier, false);
             w3_random(ctx, "binop", ops, tier.pick(300, 150_000, 4_000_000));
             w_uint(ctx, "binop", ops, tier);
+            w_long(ctx, "binop", ops, tier);
             w4_div_hostile(ctx, "binop", ops);
         }
         "C04" => {
@@ -820,6 +860,7 @@ pub fn run(ctx: &mut Ctx) {
             w2_lattice(ctx, "binop", ops, tier, false);
             w3_random(ctx, "binop", ops, tier.pick(300, 150_000, 4_000_000));
             w_uint(ctx, "binop", ops, tier);
+            w_long(ctx, "binop", ops, tier);
             w_not(ctx, tier);
         }
         "C20" => {
@@ -827,6 +868,7 @@ pub fn run(ctx: &mut Ctx) {
             w2_lattice(ctx, "forms", ops, tier.pick(Tier::Tiny, Tier::Tiny, Tier::Quick), true);
             w3_random(ctx, "forms", ops, tier.pick(200, 100_000, 2_000_000));
             w_uint(ctx, "forms", ops, tier);
+            w_long(ctx, "forms", ops, tier.pick(Tier::Tiny, Tier::Tiny, Tier::Quick));
             w4_div_hostile(ctx, "forms", &[Op::Div, Op::Rem]);
             w_forms_shift(ctx, tier);
             w_not_forms(ctx, tier);
@@ -906,7 +948,7 @@ pub const REQUIRED_C01: &[&str] = &[
     "carry-ripples-through-full-word", "borrow-through-zero-word",
     "lhs-spare-capacity-or-heap-short", "different-word-sizes",
     "uint-rhs:u8", "uint-rhs:u16", "uint-rhs:u32", "uint-rhs:u64", "uint-rhs:u128", "uint-rhs:usize",
-    "uint-value>=2^n",
+    "uint-value>=2^n", "long-operands",
 ];
 pub const REQUIRED_C02: &[&str] = &[
     "rel:m>n", "rel:m<n", "rel:m=n", "rel:m>cap", "n=0",
